@@ -44,6 +44,8 @@ class Gen:
     def lit(self, ty):
         r = self.rng
         if ty == "int":
+            if self.edge and r.random() < 0.03:
+                return r.choice(["2147483648", "3000000000", "4294967296", "9223372036854775807"])   # does not fit an int: a located runtime error
             return r.choice(INT_EDGE) if self.edge and r.random() < 0.5 else str(r.randrange(0, 20))
         if ty == "long":
             return r.choice(LONG_EDGE) if self.edge and r.random() < 0.5 else "%dL" % r.randrange(0, 50)
